@@ -57,3 +57,13 @@ package recorder
 //@ func (conf *RecorderConfig) validate
 //@   requires conf != nil
 //@   ensures [C03] (result == nil) == (conf.MaxSecs >= conf.MinSecs)
+
+//@ func NewConfig
+//@   mode permissive
+//@   allocates
+//@   call New#1 given_after $result.1 == nil ==> $result.0 != nil
+//@   ensures result1 == nil ==> result0 != nil
+//@   check [C11,C03] sitehappened("validate", 1) ==> result1 == nil ==> result0 != nil && result0.MinSecs == thermalRecorderConfig.MinSecs && result0.MaxSecs == thermalRecorderConfig.MaxSecs && result0.PreviewSecs == thermalRecorderConfig.PreviewSecs && result0.ConstantRecorder == thermalRecorderConfig.ConstantRecorder
+//@   check [C03] result1 == nil ==> sitehappened("validate", 1)
+//@   check [C03] sitehappened("validate", 1) ==> result1 == nil ==> siteres("validate", 1) == nil && result0.MaxSecs >= result0.MinSecs
+//@   check [C11,C04] sitehappened("New", 1) ==> sitearg("New", 1, 0) == windowsConfig.StartRecording && sitearg("New", 1, 1) == windowsConfig.StopRecording
